@@ -1,12 +1,13 @@
 #!/bin/sh
-# process every delivered seeded change not yet verified; log to /tmp/sv/queue.log
+# process every delivered seeded change not yet verified, 4 properties at a time; log to /tmp/sv/queue.log
 mkdir -p /tmp/sv
-for d in /tmp/seed/C*-out/m*; do
-  [ -f "$d/patch.diff" ] || continue
-  p=$(basename $(dirname $d) | sed 's/-out//'); m=$(basename $d)
-  [ -f "/tmp/sv/$p-$m.json" ] && continue
-  echo "=== $p $m $(date +%T)" >> /tmp/sv/queue.log
-  python3 /verif/tools/seedverify.py $p $m > /tmp/sv/$p-$m.json 2>&1
-  tail -25 /tmp/sv/$p-$m.json | grep -E "confirmed|detected|^  C" >> /tmp/sv/queue.log
-done
+ls -d /tmp/seed/C*-out | sed 's#.*/##; s/-out//' | xargs -P 4 -I{} sh -c '
+  p={}
+  for d in /tmp/seed/$p-out/m*; do
+    [ -f "$d/patch.diff" ] || continue
+    m=$(basename $d)
+    [ -f "/tmp/sv/$p-$m.json" ] && continue
+    python3 /verif/tools/seedverify.py $p $m > /tmp/sv/$p-$m.json 2>&1
+    { echo "=== $p $m $(date +%T)"; tail -25 /tmp/sv/$p-$m.json | grep -E "confirmed|detected|^  C"; } >> /tmp/sv/queue.log
+  done'
 echo "=== queue pass done $(date +%T)" >> /tmp/sv/queue.log
